@@ -27,6 +27,9 @@ def atom_text(d, g):
 from ..accmodel import Model, atom_matcher      # noqa: E402  (accumulator over atoms: alternatives, exclusions, star flag, constants)
 
 
+SPELLINGS = dict(filter=['filter', 'f', 'fi', 'filt', 'wl filter', 'wlfilter', 'w f', 'wl  fil'],
+                 breakpoint=['breakpoint', 'b', 'br', 'break', 'wl breakpoint', 'wlbreakpoint', 'w b', 'wl  brea'])
+
 class Sequences(Stage):
     name = 'sequences'
 
@@ -92,6 +95,10 @@ class Sequences(Stage):
                     c['which'] = twins[0]['which']
         # now and then the same commands over and over: matchers accumulated by hundreds of commands
         repeat = d.int(15, 50) if d.chance(0.07) else None
+        if d.chance(0.5):
+            for c in cmds:
+                if d.chance(0.6):
+                    c['spell'] = d.int(0, 7)
         return dict(specs=specs, which=which, initial=initial, cmds=cmds, repeat=repeat, at_prompt=d.chance(0.4))
 
     @staticmethod
@@ -206,10 +213,12 @@ class Sequences(Stage):
             n_out, n_err = len(s.out.buffer), len(s.err.buffer)
             before = [current(which).matches(m) for m in msgs]
             other_before = [current(other).matches(m) for m in msgs]
+            # the command by its full name, an abbreviation, or one of the spellings GDB mode offers (drawn per command)
+            word = SPELLINGS[which][c['spell'] % len(SPELLINGS[which])] if 'spell' in c else which
             if case.get('at_prompt'):
-                s.type_at_prompt(which + ' ' + text)      # typed at the `wl debug $` prompt, as in file and run mode
+                s.type_at_prompt(word + ' ' + text)      # typed at the `wl debug $` prompt, as in file and run mode
             else:
-                s.ctl.process_command(which + ' ' + text)
+                s.ctl.process_command(word + ' ' + text)
             out = s.out.buffer[n_out:]
             err = s.err.buffer[n_err:]
             cur = current(which)
